@@ -224,6 +224,11 @@ class ExtMixin(object):
             src = args[0]
             if isinstance(src, DictV):
                 d.items = dict(src.items)
+            elif isinstance(src, SeqV) and src.kind == "seqmap" and isinstance(src.elem, ListV) and len(src.elem.items) == 2:
+                return LoopDictV(src.var, src.seq, src.elem.items[0], src.elem.items[1])
+            elif isinstance(src, ListV) and all(isinstance(i, ListV) and len(i.items) == 2 for i in src.items):
+                for it in src.items:
+                    d.items[it.items[0].key()] = (it.items[0], it.items[1])
             else:
                 self.err(node, "dict(%r)" % (src,))
         for k, v in kwargs.items():
@@ -248,6 +253,8 @@ class ExtMixin(object):
             return SeqV("opaque", path=("sorted", v.key()), elem_class=None)
         if isinstance(v, BoundBuiltin) and v.name in ("keys",):
             return self.x_sorted([v.base], {}, node, env)
+        if isinstance(v, LoopDictV):
+            return self.x_sorted([SeqV("seqmap", var=v.var, seq=v.seq, elem=v.keyv)], {}, node, env)
         self.err(node, "sorted(%r)" % (v,))
 
     def x_reversed(self, args, kwargs, node, env):
@@ -535,7 +542,26 @@ class ExtMixin(object):
 
     # LoopDictV
     def m_LoopDictV_get(self, base, args, kwargs, node):
+        hit = self.loopdict_direct(base, args[0])
+        if hit is not None:
+            return hit
         return LookupV(base, args[0], args[1] if len(args) > 1 else NONE)
+
+    def m_LoopDictV_keys(self, base, args, kwargs, node):
+        return SeqV("seqmap", var=base.var, seq=base.seq, elem=base.keyv)
+
+    def m_LoopDictV_values(self, base, args, kwargs, node):
+        return SeqV("seqmap", var=base.var, seq=base.seq, elem=base.valv)
+
+    def m_LoopDictV_items(self, base, args, kwargs, node):
+        return SeqV("seqmap", var=base.var, seq=base.seq, elem=ListV([base.keyv, base.valv], "tuple"))
+
+    def loopdict_direct(self, ld, query):
+        """{key(e): val(e) for e in S}[key(S[j])] = val(S[j])  (keys of distinct elements are distinct)"""
+        b = _unify(ld.keyv.key(), query.key(), ld.var)
+        if b is None:
+            return None
+        return self.subst(ld.valv, {ld.var: b})
 
     # Opaque dict-likes
     def m_Opaque_dummy(self, base, args, kwargs, node):
@@ -594,6 +620,30 @@ class ExtMixin(object):
         found = self.subst(self.getattr(ld.valv, name, node), {ld.var: ep.sym("@e")})
         dflt = self.getattr(lk.default, name, node) if lk.default is not None else None
         return Opaque(("lookupattr", self.lookup_fkey(lk), found.key(), dflt.key() if dflt is not None else None))
+
+
+def _unify(pattern, target, var):
+    """match nested key tuples; the pattern's occurrences of sym(var) bind to an RF of the target"""
+    binding = [None]
+
+    def go(p, t):
+        if isinstance(p, ep.RF):
+            if not isinstance(t, ep.RF):
+                return False
+            if ep.equal(p, ep.sym(var))[0]:
+                if binding[0] is None:
+                    binding[0] = t
+                    return True
+                return ep.equal(binding[0], t)[0]
+            if p.depends_on(var):
+                return False
+            return ep.equal(p, t)[0]
+        if isinstance(p, tuple):
+            return isinstance(t, tuple) and len(p) == len(t) and all(go(a, b) for a, b in zip(p, t))
+        return p == t
+    if go(pattern, target) and binding[0] is not None:
+        return binding[0]
+    return None
 
 
 class BecomeSignal(Exception):
